@@ -146,6 +146,7 @@ def run(ctx):
            "nested_receiveSync_from_callback_threw_logic_error",
            "burst_connectSync_calls_entered_between_teardown_begin_and_stop_return", "burst_connectSync_shutting_down",
            "connectViaListener_ok", "datagrams_from_known_peers_delivered_after_restart", "datagrams_from_raw_peers_delivered_first_start",
+           "reconnect_from_ShuttingDown_onClose_refused",
            "edge_callers_started", "post_unlock_holds", "edge_connectSync_returned_Timeout", "edge_connectSync_returned_ShuttingDown",
            "edge_receiveSync_returned_Timeout", "teardown_began_with_connectSync_caller_past_its_expiry_not_yet_returned",
            "teardown_began_with_receiveSync_caller_past_its_expiry_not_yet_returned"]
